@@ -1,0 +1,16 @@
+//go:build verif
+
+package portmapping
+
+import (
+	utiliptables "tkestack.io/galaxy/pkg/utils/iptables"
+)
+
+// VerifNew builds a PortMappingHandler over the given iptables interface (the handler's fields are
+// private); natInterfaceName is "" as in galaxy.go (`portmapping.New("")`).
+func VerifNew(iptablesInterface utiliptables.Interface) *PortMappingHandler {
+	return &PortMappingHandler{
+		Interface:  iptablesInterface,
+		podPortMap: make(map[string]map[hostport]closeable),
+	}
+}
